@@ -438,6 +438,7 @@ func (r *Report) writeEvidence(verif string, v *propVerdict, li levelInfo, nviol
 		"machine integers are modelled exactly (two's complement wrap-around on mathematical integers); byte-slice contents are abstracted by an injective content order unless a function indexes bytes",
 		"append is modelled as always copying; a typed nil inside an interface is not modelled; goroutines/channels are not modelled",
 		"assumed (unverified) contracts of external functions: "+strings.Join(assumed, ", "),
+		"closed world for init-only fields: an unexported field of an unexported struct type that the exported API never hands out and that the repository only stores into objects the storing function allocated itself is kept across calls of unknown code (user callbacks); package unsafe and reflection are not considered; every value of slice/string type read from the heap points into allocated memory (heap typing)",
 	)
 	for _, n := range notes {
 		assumptions = append(assumptions, "engine note: "+n)
